@@ -1212,3 +1212,170 @@ def ctx_read(ref):
         if step[0] == "f":
             v = v.fields[step[1]]
     return v
+
+
+# ---------------------------------------------------------------- C10: executor / stream
+EXEC_CL = r"^fn futures::<impl at [^>]*>::process_events::\{closure#0\}"
+EXEC_PE = r"::process_events\(_1: &mut Executor<T>"
+
+
+def ob_exec_process(ctx, tier):
+    """Executor::process_events closure: the `notified` flag is cleared BEFORE the first dequeue on
+    every path and never afterwards; per runnable: run(), then the task table is borrowed, a
+    finished entry is REMOVED and the guard dropped before the user callback gets the result;
+    no guard of the table is alive across run() or the callback.  Outer function: if the 1024
+    batch ends the loop the executor pings itself and returns Continue"""
+    c = Chk()
+    f, paths, cfg = run_fn(ctx, EXEC_CL, unroll=1)
+    for p in paths:
+        st = [a for a in atomics(p) if a.callee.endswith("store")]
+        tr = calls(p, r"mpsc::Receiver::<.*>::try_recv$")
+        if tr:
+            c.witness = True
+            if not st or st[0].idx > tr[0].idx or not bool_is(st[0].args[1], False):
+                c.fail("notified_not_cleared_before_first_dequeue", p)
+        if [a for a in st if tr and a.idx > tr[0].idx]:
+            c.fail("notified_cleared_after_a_dequeue", p)
+        if not tr and p.status == "return" and not st:
+            c.fail("notified_not_cleared", p)
+        for r in calls(p, r"Runnable::<usize>::run$"):
+            if r.guards:
+                c.fail("task_table_borrowed_across_run", p)
+            if not [t for t in tr if ("r%d@Ok.0" % t.idx) in repr(r.args[0])]:
+                c.fail("run_of_something_not_dequeued", p)
+        for cb in [e for e in p.trace if is_cb(e)]:
+            if cb.guards:
+                c.fail("task_table_borrowed_during_callback", p)
+            rm = calls(p, r"Slab::<.*>::remove$")
+            prev = [x for x in rm if x.idx < cb.idx]
+            if not prev:
+                c.fail("result_delivered_without_removing_the_entry", p)
+            elif not any(("r%d@Finished.0" % prev[-1].idx) in repr(a) or (getattr(a, "name", "").startswith("r%d@Finished" % prev[-1].idx)) for a in cb.args):
+                c.fail("delivered_value_is_not_the_removed_result", p)
+    f2, paths2, cfg2 = run_fn(ctx, EXEC_PE, unroll=1, inline=INL_PING, key="exec")
+    for p in paths2:
+        if p.status != "return" or not ret_is(p, 0):
+            continue
+        nexts = [e for e in p.trace if e.kind == "iter_next"]
+        wr = calls(p, r"rustix::io::write")
+        tr = calls(p, r"mpsc::Receiver::<.*>::try_recv$")
+        if nexts and nexts[-1].callee == "None" and tr:
+            if not wr:
+                c.fail("batch_limit_reached_without_self_wakeup", p)
+            if not entails(ctx, p.pc, dz(ok_payload_disc(p.ret)) == 0)[0]:
+                c.fail("batch_limit_reached_but_not_continue", p)
+        if tr and entails(ctx, p.pc, dz(tr[-1].ret.disc) == 1)[0] and wr:
+            c.fail("self_wakeup_although_queue_was_seen_empty", p)
+    return c.res(paths + paths2, cfg)
+
+
+def ob_exec_send(ctx, tier):
+    """futures::Sender::send (the schedule function of every task): enqueue under the mutex, THEN
+    swap(notified, true), and ping the executor iff the flag was not already set"""
+    c = Chk()
+    f, paths, cfg = run_fn(ctx, r"^fn futures::<impl at [^>]*>::send\(_1: &futures::Sender")
+    for p in paths:
+        en = calls(p, r"mpsc::Sender::<Runnable<usize>>::send$")
+        sw = atomics(p, "swap")
+        pg = calls(p, r"Ping::ping$")
+        if len(en) != 1:
+            c.fail("schedule_shape", p)
+            continue
+        if p.status == "panic":
+            if entails(ctx, p.pc, dz(en[0].ret.disc) == 0)[0]:
+                c.fail("schedule_panics_after_successful_enqueue", p)
+            continue
+        c.witness = True
+        if len(sw) != 1 or sw[0].idx < en[0].idx or not bool_is(sw[0].args[1], True):
+            c.fail("notified_not_set_after_enqueue", p)
+            continue
+        was = entails(ctx, p.pc, sw[0].ret)[0]
+        if was and pg:
+            c.fail("redundant_wakeup", p)
+        if not was and (len(pg) != 1 or pg[0].idx < sw[0].idx):
+            c.fail("no_wakeup_although_flag_was_clear", p)
+    return c.res(paths, cfg)
+
+
+def ob_exec_drop(ctx, tier):
+    """Executor::drop takes the task table (so schedule() sees None => ExecutorDestroyed), wakes every
+    pending future's waker and drains the queue; Scheduler::schedule returns Err on a taken
+    table without touching anything; StoreOnDrop stores the value or removes the entry"""
+    c = Chk()
+    f, paths, cfg = run_fn(ctx, r"::drop\(_1: &mut Executor<T>\)", unroll=1)
+    for p in paths:
+        if p.status == "panic":
+            continue
+        tk = [e for e in p.trace if e.kind == "take"]
+        if not tk:
+            c.fail("executor_drop_does_not_take_the_table", p)
+        c.witness = True
+        if p.status == "return" and not calls(p, r"mpsc::Receiver::<.*>::try_recv$"):
+            c.fail("executor_drop_does_not_drain_the_queue", p)
+        wk = calls(p, r"Waker::wake$|catch_unwind")
+        futs = [e for e in calls(p, r"slab::IntoIter<.*> as Iterator>::next$")
+                if entails(ctx, p.pc, dz(e.ret.disc) == 1)[0]]
+    f2, p2, cfg2 = run_fn(ctx, r"::schedule\(_1: &Scheduler<T>", unroll=0)
+    for p in p2:
+        if p.status != "return" or not isinstance(p.ret, Enum):
+            continue
+        if p.ret.disc == 1:
+            if calls(p, r"Runnable|spawn|insert|Slab"):
+                c.fail("schedule_on_destroyed_executor_has_effects", p)
+        else:
+            sp = calls(p, r"spawn_local")
+            ins = calls(p, r"Slab::<.*>::insert$")
+            sc = calls(p, r"Runnable::<usize>::schedule$")
+            if not sp or not ins or not sc or not (sp[0].idx < ins[0].idx < sc[0].idx):
+                c.fail("schedule_order_spawn_insert_schedule", p)
+            if sc and sc[0].guards:
+                c.fail("task_table_borrowed_while_scheduling", p)
+    return c.res(paths + p2, cfg)
+
+
+STREAM_CL = r"::process_events::\{closure#0\}\(_1: &mut \{closure@src/sources/stream"
+STREAM_PE = r"::process_events\(_1: &mut StreamSource<S>"
+
+
+def ob_stream(ctx, tier):
+    """StreamSource: poll_next is repeated until Pending; Some(x) => callback(Some(x)) with that x;
+    None => exactly one callback(None), the loop ends, and the source returns Remove"""
+    c = Chk()
+    f, paths, cfg = run_fn(ctx, STREAM_CL, unroll=1)
+    for p in paths:
+        pn = calls(p, r" as Stream>::poll_next$")
+        cbs = [e for e in p.trace if is_cb(e)]
+        for q in pn:
+            c.witness = True
+            r = q.ret
+            after = [e for e in p.trace[q.idx + 1:] if e.kind in ("call", "callback") and "as_mut" not in e.callee]
+            if entails(ctx, p.pc, dz(r.disc) == 1)[0]:          # Pending
+                if after:
+                    c.fail("stream_polled_or_delivered_after_pending", p)
+                continue
+            item = r.payloads["Ready"][0]
+            some = entails(ctx, p.pc, dz(disc_of(item)) == 1)[0]
+            if not after or not is_cb(after[0]):
+                c.fail("ready_item_not_delivered", p)
+                continue
+            arg = [a for a in after[0].args if isinstance(a, Enum)]
+            if some:
+                if not arg or arg[0].disc != 1 or arg[0].payloads["Some"][0] is not item.payloads["Some"][0]:
+                    c.fail("delivered_item_is_not_the_polled_one", p)
+            else:
+                if not arg or arg[0].disc != 0:
+                    c.fail("end_of_stream_not_delivered_as_none", p)
+                if after[1:]:
+                    c.fail("stream_used_after_its_end", p)
+    f2, p2, cfg2 = run_fn(ctx, STREAM_PE, unroll=1, inline=INL_PING, key="stream")
+    for p in p2:
+        if p.status != "return" or not ret_is(p, 0):
+            continue
+        ended = any(is_cb(e) and any(isinstance(a, Enum) and a.disc == 0 and enum_base_is(a, "Option") for a in e.args) for e in p.trace)
+        if ended and not entails(ctx, p.pc, dz(ok_payload_disc(p.ret)) == 3)[0]:
+            c.fail("ended_stream_not_removed", p)
+    return c.res(paths + p2, cfg)
+
+
+def enum_base_is(v, base):
+    return symex.enum_base(v.ty) == base
